@@ -157,6 +157,29 @@ theorem pickup_spec_described (p : PartD) (l : Int) (s0 : TimeMap.TSig) (rest : 
   obtain ⟨k, k', post, hS⟩ := simple_start_of_description p l s0 rest q0 qrest H
   exact pickup_spec_composed p l s0 rest q0 k k' post hS
 
+/-- **`divs_per_beat_described`** (round 6): under the same description-level hypotheses `divs_per_beat` is the quarter
+    duration at 0 divided by the beat factor of the first signature - it does not depend on any later quarter-duration
+    entry, signature or on the length of the timeline -/
+theorem divs_per_beat_described (p : PartD) (l : Int) (s0 : TimeMap.TSig) (rest : List TimeMap.TSig) (q0 : Nat)
+    (qrest : List (Int × Nat)) (H : DescribedStart p l s0 rest q0 qrest) :
+    divsPerBeat p = some ((q0 : Rat) / TimeMap.factorOf (TimeMap.beatMode (timePart p)) s0) := by
+  obtain ⟨k, k', post, hS⟩ := simple_start_of_description p l s0 rest q0 qrest H
+  obtain ⟨hspan, hwf, hts, hs0, hlater, hq, hk, hk0, hreach⟩ := hS
+  have hkm : k ∈ TimeMap.keypoints (timePart p) (TimeMap.beatMode (timePart p)) := by rw [hk]; simp
+  have hdiv : k.divs = (q0 : Rat) := by
+    have := C02.keypoint_divs_inforce _ _ k hkm
+    rw [hk0] at this
+    exact inforce_at_assigned _ _ _ _ _ this hq
+  have hfac : k.fac = TimeMap.factorOf (TimeMap.beatMode (timePart p)) s0 := by
+    have := C02.keypoint_fac_inforce _ _ k hkm
+    rw [hk0] at this
+    have hts' : (timePart p).ts = s0 :: rest := hts
+    rw [hts'] at this
+    exact inforce_at_assigned _ _ _ _ _ this
+      (facAssign_at_zero _ (beatMode_ne_quarter _) s0 rest hs0 hlater)
+  rw [← hdiv, ← hfac]
+  exact divsPerBeat_closed p hwf k k' post hk hk0 (by rw [hdiv, hfac]; exact hreach)
+
 /-- **`pickup_maps_exact_described`**: `pickup_maps_exact` with the same description-level hypotheses - inside a pickup
     shorter than a bar of `N` whole divisions, `measure_map = (e − N, e)` and
     `metrical_position_map = (x − e + N, N)`, at every resolution -/
